@@ -310,9 +310,12 @@ def rnd_scenario_degenerate(rng, dim, axis, mode):
             L = rng.choice([1.0, 0.2, 3.0, 0.05])
             lo = L * rng.uniform(-1.0, 0.5) * rng.choice([0, 1])
             if mode == 'res>extent':
-                # (larger ratios combined with functions that grow towards the far outer nodes enter the float-fragile
-                #  regime of the known findings: the outer nodes stretch the globally normalised coordinate)
-                r = L * rng.choice([1.0000001, 1.5, 2.5, 10.0] + ([100.0] if dim < 3 else []) + ([1e3] if dim == 1 else []))
+                # Caps: the outer nodes at min - res / max + res stretch the globally normalised coordinate, so the area lies
+                # ~res/h cell widths from its origin; measured node error of HEAD relative to the data scale: 1-D 1e-11 at
+                # ratio 30 (4e-10 at 300), 2-D 1e-12 at 10 (3e-10 at 100), 3-D 1e-10 at 10.  Larger ratios belong to the
+                # float-fragile regime and are probed by the `outer-*` witnesses under their own signature.
+                r = L * rng.choice({1: [1.0000001, 1.5, 2.5, 10.0, 30.0], 2: [1.0000001, 1.5, 2.5, 10.0],
+                                    3: [1.0000001, 1.5, 2.5]}[dim])
             elif mode == 'res=extent':
                 r = L
             elif mode == 'res just below extent':
@@ -593,6 +596,7 @@ def far_from_origin(sc):
 
 FAR = {1: 1e4, 2: 300.0, 3: 100.0}         # cell widths from the origin (largest over the axes) beyond which digits are visibly lost
 FINE = {1: 1e4, 2: 200.0 ** 2, 3: 50.0 ** 3}   # total number of cells
+OUTER = {1: 300.0, 2: 100.0, 3: 30.0}          # resolution / extent on some axis (outer nodes stretch the normalised coordinate)
 
 
 def _regime(sc):
@@ -604,7 +608,9 @@ def _regime(sc):
         n = max(int((hi - lo) / r), 1)
         off = max(off, max(abs(lo), abs(hi)) / ((hi - lo) / n))
         ncell *= float(n)
-    name = 'far-from-origin' if off > FAR[sc['dim']] else ('fine-grid' if ncell > FINE[sc['dim']] else 'regular')
+    ratio = max(sc['res'][d] / (sc['area'][2 * d + 1] - sc['area'][2 * d]) for d in range(sc['dim']))
+    name = 'far-from-origin' if off > FAR[sc['dim']] else ('fine-grid' if ncell > FINE[sc['dim']] else
+                                                            ('resolution-exceeds-extent' if ratio > OUTER[sc['dim']] else 'regular'))
     return name, off, ncell
 
 
@@ -1095,6 +1101,8 @@ def witnesses():
     lin = lambda dim, c: dict(dim=dim, c=[c] * dim + [0.0] * (3 - dim), kind='multilinear',  # noqa
                               m=[0.3, 1.1, -0.7 if dim > 1 else 0.0, 0.9 if dim > 2 else 0.0, 0.5 if dim > 1 else 0.0,
                                  -0.4 if dim > 2 else 0.0, 0.8 if dim > 2 else 0.0, 1.3 if dim > 2 else 0.0])
+    curved = lambda dim: dict(dim=dim, c=[0.5] * dim + [0.0] * (3 - dim), kind='smooth', m=[-1.25, 1.7, 0, 0, 0, 0, 0, 0],  # noqa
+                              A=1.3, k=[3.7, 2.4, 2.6], phi=[0.05, 2.6, 0.43], B=[0.0, 0.0, 0.0])
     sin1 = dict(dim=1, c=[0.0, 0.0, 0.0], m=[0.0] * 8, kind='smooth', A=1.0, k=[1.0, 0, 0], phi=[0.0, 0, 0], B=[0.0, 0, 0])
     gauss = dict(dim=2, c=[6.0, 0.0, 0.0], m=[0.0] * 8, kind='smooth', A=1.0, k=[0.5, 0.5, 0], phi=[1.5707963267948966] * 3, B=[0.0, 0, 0])
     return [
@@ -1105,6 +1113,13 @@ def witnesses():
         # fine grids
         dict(name='fine-1D', sc=dict(dim=1, area=[0.0, 1.0], res=[1e-6], nbe=False, bounds=None, fn=sin1), cells=60),
         dict(name='fine-2D', sc=dict(dim=2, area=[4.0, 8.0, -4.0, 4.0], res=[0.01, 0.01], nbe=False, bounds=None, fn=gauss), cells=400),
+        # resolution much larger than the extent on one axis: the outer nodes stretch the normalised coordinate
+        dict(name='outer-1D', node=True, cells=4,
+             sc=dict(dim=1, area=[0.0, 1.0], res=[1e5], nbe=False, bounds=None, fn=curved(1))),
+        dict(name='outer-2D', node=True, cells=6,
+             sc=dict(dim=2, area=[0.0, 1.0, 0.0, 1.0], res=[0.4, 1e5], nbe=False, bounds=None, fn=curved(2))),
+        dict(name='outer-3D', node=True, cells=6,
+             sc=dict(dim=3, area=[0.0, 1.0] * 3, res=[0.4, 0.4, 1e5], nbe=False, bounds=None, fn=curved(3))),
     ]
 
 
@@ -1118,11 +1133,14 @@ def s_witness(ctx, w):
     sc = dict(sc, points=[], fragile=True)
     for _ in range(w['cells']):
         ix = [rng.randint(1, len(dom[d]) - 3) for d in range(dim)]
-        p = tuple(float(0.5 * (dom[d][ix[d]] + dom[d][ix[d] + 1])) for d in range(dim))
+        if w.get('node'):
+            p = tuple(float(dom[d][ix[d]]) for d in range(dim))          # a sampling node: must be reproduced exactly
+        else:
+            p = tuple(float(0.5 * (dom[d][ix[d]] + dom[d][ix[d] + 1])) for d in range(dim))
         sc['points'] = [p]
         ctx.case(key=('witness', w['name'], tuple(ix)))
         # the generic oracle, so that the signatures are the same ones a random scenario would produce
-        if _single_point_oracle(ctx, dict(sc), c, fn, p):
+        if _single_point_oracle(ctx, dict(sc), c, fn, p, node=bool(w.get('node'))):
             ctx.count('witness-fired:' + w['name'])
             w['hit'] = p
             return True
@@ -1170,7 +1188,7 @@ def explore_fragile(ctx, n):
         ctx.count('fragile-search:%dD:%s' % (dim, 'fired' if fired else 'held'))
 
 
-def _single_point_oracle(ctx, sc, c, fn, p):
+def _single_point_oracle(ctx, sc, c, fn, p, node=False):
     dim = sc['dim']
     scale = scale_of(sc)
     floor = 1e-9 * scale
@@ -1187,13 +1205,14 @@ def _single_point_oracle(ctx, sc, c, fn, p):
                  dict(check='inside-raises', scenario=_short(sc), point=p))
         return True
     err = abs(v - fn(*p))
-    lim = floor + (0.0 if fn.multilinear() else bound)
+    lim = floor + (0.0 if (fn.multilinear() or node) else bound)
     if not err <= lim:
-        what = value_sig(sc, 'multilinear-not-reproduced' if fn.multilinear() else 'error-exceeds-h2-bound')
+        what = value_sig(sc, 'node-not-interpolated' if node else
+                         ('multilinear-not-reproduced' if fn.multilinear() else 'error-exceeds-h2-bound'))
         ctx.fail(fail_sig(sc, what),
                  'point %r: |cached - f| = %.3e > %.3e (H^2 max|f"| = %.3e, float floor %.1e); area %r resolution %r '
                  '(up to %.3g cells from the origin)' % (p, err, lim, bound, floor, sc['area'], sc['res'], rho),
-                 dict(check='values', scenario=_short(sc), point=p, kind='in', error=err, limit=lim))
+                 dict(check='values', scenario=_short(sc), point=p, kind='node' if node else 'in', error=err, limit=lim))
         return True
     return False
 
@@ -1408,7 +1427,7 @@ def _replay_one(ctx, rep):
             s_bounds(ctx, sc, random.Random(0))
         else:
             c = build(sc, fn)
-            _single_point_oracle(ctx, dict(sc, points=[p]), c, fn, p)
+            _single_point_oracle(ctx, dict(sc, points=[p]), c, fn, p, node=rep.get('kind') == 'node')
     elif chk == 'kinds':
         b = rep['bounds']
         kind_point_oracle(ctx, rep['dim'], rep['kind'], rep['k0'], rep['k1'], rep['ki'], rep['area'], rep['res'], rep['nbe'],
